@@ -5,7 +5,7 @@
    Models: Aggregates.v (plain_aggregates, pointwise_aggregates as coded), Tentative.v,
    Coarsen.v (aggregation, smoothed_aggregation, ruge_stuben as coded). *)
 From Amgcl Require Import Scalar QcInst Vec Crs Kernels MatOps MatOps2 MatOps2Proofs Aggregates Tentative Coarsen CoarsenProofs.
-From Amgcl Require Import Qr QrMathRefl QrMathR TentativeQr TentativeQrProofs TentativeQrR EminProofs2.
+From Amgcl Require Import Qr QrMathRefl QrMathR TentativeQr TentativeQrProofs TentativeQrR EminProofs2 EminProofs3.
 Local Open Scope S_scope.
 
 (* ---------------------------------------------------------------- 1. plain_aggregates (any S)
@@ -567,3 +567,47 @@ Example C04_emin_nonvacuous :
   | _, _ => False
   end.
 Proof. vm_compute. repeat split; reflexivity. Qed.
+
+(* ==================================================================== 8. triage: "smoothed_aggr_emin returns P == 0"
+   It is what the formula demands, not a defect of the transfer operators: if column j of P_t is an eigenvector
+   of D^-1 A_F (A_F P_t e_j = lambda D P_t e_j), the minimising damping is omega_j = 1/lambda and column j of
+   P = P_t - D^-1 A_F P_t Omega is zero (zero energy: the minimiser).  Consequence outside C04: the Galerkin
+   operator of that level has a zero row/column; in binary64 Gauss-Seidel / SPAI-0 on it give NaN and
+   skyline_lu throws "Zero diagonal" (reproduced on the real code: 1-D Poisson on 2 points, coarse_enough = 1) --
+   a counterexample to the contraction clause of C02 for this coarsening, see the meta note. *)
+Section EminEigenvector.
+Variable S : Scalar.
+Hypothesis Sft : Sfield S.
+Theorem C04_emin_eigenvector_column_vanishes (A : crs S) (st : flags) (Pt : crs S) (j : nat) (lambda : S) :
+  (forall i, i < nrows A -> emin_AP A st Pt i j = lambda * sa_D A st i * mget Pt i j) ->
+  (forall k, k < nrows A -> sa_D A st k <> s0) ->
+  lambda <> s0 ->
+  sumn (fun i => (sa_D A st i * mget Pt i j) * (sa_D A st i * mget Pt i j)) (nrows A) <> s0 ->
+  (forall i, i < nrows A -> emin_ADAP A st Pt i j = lambda * emin_AP A st Pt i j) /\
+  emin_omega_spec A st Pt j = sinv lambda /\
+  (forall i, i < nrows A -> emin_P_spec A st Pt i j = s0).
+Proof. exact (emin_eigen_column_vanishes S Sft A st Pt j lambda). Qed.
+End EminEigenvector.
+
+(* the smallest witness, 1-D Poisson on two points: P = 0, R = 0, coarse operator = the 1 x 1 zero matrix *)
+Theorem C04_emin_poisson2_P_zero :
+  match emin_transfer 1 (qc 1 16) 1 poisson1d_2 (repeat (qc 0 1) 2) with
+  | TrOk P R =>
+      nrows P = 2%nat /\ ncols P = 1%nat /\ is_zero_crs P = true /\ is_zero_crs R = true /\
+      is_zero_crs (emin_coarse 1 poisson1d_2 P R) = true /\ nrows (emin_coarse 1 poisson1d_2 P R) = 1%nat
+  | _ => False
+  end.
+Proof. exact emin_poisson2_zero. Qed.
+Print Assumptions C04_emin_poisson2_P_zero.
+
+(* the hypotheses of the eigenvector theorem hold there with lambda = 1/2 *)
+Example C04_emin_eigenvector_nonvacuous :
+  match plain_aggregates (qc 1 16) poisson1d_2 (repeat (qc 0 1) 2) with
+  | AggOk count id st =>
+      let Pt := tentative_prolongation (S:=QcS) count id in
+      count = 1%nat /\
+      forallb (fun i => seqb (emin_AP poisson1d_2 st Pt i 0) (qc 1 2 * sa_D poisson1d_2 st i * mget Pt i 0)
+                        && negb (is_zero (sa_D poisson1d_2 st i))) [0; 1]%nat = true
+  | _ => False
+  end.
+Proof. vm_compute. split; reflexivity. Qed.
